@@ -3,14 +3,14 @@ From Common Require Import Base.
 From Gate Require Import Model.
 Open Scope N_scope.
 
-Lemma gate f c lookup0 m p :
-  safe_flags f = true -> wf_cred c -> serve f c lookup0 m p = Invoked ->
+Lemma gate f c lookup0 m p body :
+  safe_flags f = true -> wf_cred c -> serve f c lookup0 m p body = Invoked ->
   (must_auth f = true -> authed c = true) /\
   (forall ps, perms f = Some ps ->
      authed c = true /\ (admin c = true \/ forallb (granted c) ps = true)).
 Proof.
   unfold safe_flags, wf_cred, serve.
-  destruct f as [ma ca lw pm]; cbn [must_auth can_auth lightweight perms].
+  destruct f as [ma ca lw pm vd]; cbn [must_auth can_auth lightweight perms valid].
   intros S W H.
   destruct lw.
   - (* lightweight: nothing may be declared *)
@@ -20,15 +20,32 @@ Proof.
     destruct (locked c); [discriminate|].
     destruct (authed c) eqn:A.
     + split; [reflexivity|]. intros ps E. split; [reflexivity|]. subst pm.
-      destruct m; cbn in H.
-      * destruct (admin c); [left; reflexivity|].
-        destruct (find (fun p0 => negb (granted c p0)) ps) as [x|] eqn:F.
-        { destruct (negb (has_user c) && ca); cbn in H; destruct ma, ca; cbn in H; discriminate. }
-        right. apply forallb_forall. intros x Hx.
-        pose proof (find_none _ _ F _ Hx) as N0. cbn beta in N0. destruct (granted c x); [reflexivity|discriminate].
-      * destruct ma, ca; cbn in H; discriminate.
+      destruct (admin c); [left; reflexivity|]. right.
+      destruct (find (fun p0 => negb (granted c p0)) ps) as [x|] eqn:F.
+      { exfalso. destruct m, p, vd, body as [[|]|], ca, ma, (has_user c); cbn in H; discriminate. }
+      apply forallb_forall. intros x Hx.
+      pose proof (find_none _ _ F _ Hx) as N0. cbn beta in N0. destruct (granted c x); [reflexivity|discriminate].
     + cbn [negb andb] in H. destruct ma; [discriminate|].
       split; [discriminate|]. intros ps E. subst pm. discriminate.
+Qed.
+
+(* a failed authentication or permission check is final: no body brings the handler back *)
+Lemma rejected_not_invoked f c lookup0 m p body :
+  lightweight f = false ->
+  (must_auth f = true /\ authed c = false) \/
+  (exists ps x, perms f = Some ps /\ admin c = false /\ In x ps /\ granted c x = false) ->
+  serve f c lookup0 m p body <> Invoked.
+Proof.
+  unfold serve. destruct f as [ma ca lw pm vd]; cbn [must_auth can_auth lightweight perms valid].
+  intros L R. subst lw. cbn [negb andb].
+  destruct (locked c); [discriminate|].
+  destruct R as [[M A]|(ps & x & E & Ad & Hx & G)].
+  - subst ma. rewrite A. cbn. discriminate.
+  - subst pm. rewrite Ad.
+    destruct (find (fun p0 => negb (granted c p0)) ps) as [y|] eqn:F.
+    + destruct (negb (authed c) && ma); [discriminate|].
+      destruct m, p, vd, body as [[|]|], ca, ma, (has_user c), (authed c); cbn; discriminate.
+    + pose proof (find_none _ _ F _ Hx) as N0. cbn beta in N0. rewrite G in N0. discriminate.
 Qed.
 
 (* ---- builder *)
@@ -44,15 +61,15 @@ Proof.
   - cbn. repeat split; discriminate.
   - rewrite forallb_app in H. apply andb_prop in H as [H1 H2]. cbn in H2.
     destruct (IH H1) as (S & L & R). rewrite build_snoc, existsb_app. cbn [existsb].
-    unfold safe_flags in *. destruct (build cs) as [ma ca lw pm]; cbn in *. subst lw.
-    destruct c as [[|]|[|]|ps|b]; cbn in *; try discriminate; repeat split; auto.
+    unfold safe_flags in *. destruct (build cs) as [ma ca lw pm vd]; cbn in *. subst lw.
+    destruct c as [[|]|[|]|ps|b|]; cbn in *; try discriminate; repeat split; auto.
     all: try (destruct pm; reflexivity).
     all: intros E; rewrite ?orb_false_r in E; auto.
 Qed.
 
 (* ---- the unrestricted claims fail *)
 Definition gate_statement : Prop :=
-  forall f c lookup0 m p, wf_cred c -> serve f c lookup0 m p = Invoked ->
+  forall f c lookup0 m p body, wf_cred c -> serve f c lookup0 m p body = Invoked ->
   (must_auth f = true -> authed c = true) /\
   (forall ps, perms f = Some ps -> authed c = true /\ (admin c = true \/ forallb (granted c) ps = true)).
 
@@ -62,12 +79,12 @@ Definition impostor : cred := mkCred false false false true [] (fun p => p =? 1)
 
 Lemma gate_refuted_lightweight :
   let f := build [LightWeight true; Authentication true] in
-  must_auth f = true /\ wf_cred nobody /\ serve f nobody (fun _ => false) true true = Invoked /\ authed nobody = false.
+  must_auth f = true /\ wf_cred nobody /\ serve f nobody (fun _ => false) true true None = Invoked /\ authed nobody = false.
 Proof. cbn. repeat split. intros H; discriminate. Qed.
 
 Lemma gate_refuted_perms_unauth :
   let f := build [Permissions [1]; Authentication false] in
-  perms f = Some [1] /\ wf_cred impostor /\ serve f impostor (fun _ => false) true true = Invoked /\ authed impostor = false.
+  perms f = Some [1] /\ wf_cred impostor /\ serve f impostor (fun _ => false) true true None = Invoked /\ authed impostor = false.
 Proof. cbn. repeat split. intros H; discriminate. Qed.
 
 Lemma builder_refuted :
